@@ -104,3 +104,15 @@ package rtpdump
 //@ ensures err == nil ==> len(ret0.Payload) + 8 == int(uint16(ufbyte("stream", int(old(ghost(rdpos)))))<<8 | uint16(ufbyte("stream", int(old(ghost(rdpos)))+1)))
 //@ ensures err == nil ==> (forall i int :: 0 <= i && i < len(ret0.Payload) ==> ret0.Payload[i] == ufbyte("stream", int(old(ghost(rdpos))) + 8 + i))
 //@ ensures err == nil ==> ret0.IsRTCP == (ufbyte("stream", int(old(ghost(rdpos)))+2) == 0 && ufbyte("stream", int(old(ghost(rdpos)))+3) == 0)
+
+// The preamble window. The writer's format string "#!rtpplay1.0 %s/%d\n" with a dotted IPv4
+// address (7..15 bytes) and a uint16 port (1..5 digits) gives preambles of 23..35 bytes, newline
+// included, followed by the 16-byte header. The reader's regular expression needs the newline
+// inside the peeked window, so the window must hold the longest preamble (35) and, so that a
+// header-only file with the shortest preamble is not taken for truncated, must not exceed
+// 23 + 16. (fmt and regexp are dependencies: the two bounds are derived by hand from the
+// format string and recorded as an assumption.)
+//@ func NewReader
+//@ props C36
+//@ nosafety
+//@ atcall (*bufio.Reader).Peek assert callarg1 >= 35 && callarg1 <= 39
